@@ -11,6 +11,8 @@ def cases(tier, seed):
     n = 1500 if tier == 'quick' else 15000
     for i in range(n):
         yield {'kind': 'empty', 'rules': X.random_rules(rng), 'perm_seed': rng.randrange(10 ** 6)}
+    for i in range(n // 2):
+        yield {'kind': 'empty', 'rules': X.structured_rules(rng), 'perm_seed': rng.randrange(10 ** 6), 'family': 'structured'}
     for i in range(n // 3):
         R = F.random_enfa(rng, rng.choice([1, 2]), ['a', 'b'][:rng.choice([1, 2])], eps=rng.random() < 0.4)
         yield {'kind': 'inter', 'rules': X.random_rules(rng, n_rules=rng.randint(2, 5)), 'R': F.to_json(R), 'as': rng.choice(['enfa', 'regex'])}
@@ -25,7 +27,7 @@ def check(case):
         exp = X.is_empty(rules)
         dup_cons = len({r for r in rules if r[0] == 'cons'}) != len([r for r in rules if r[0] == 'cons'])
         rng = random.Random(case['perm_seed'])
-        perms = list(itertools.permutations(rules)) if len(rules) <= 4 else [tuple(rng.sample(rules, len(rules))) for _ in range(12)]
+        perms = list(itertools.permutations(rules)) if len(rules) <= 4 else [tuple(rng.sample(rules, len(rules))) for _ in range(12 if len(rules) <= 6 else 5)]
         verdicts = {}
         for optim in range(9):
             for perm in (perms if optim in (0, 7) else perms[:3]):
